@@ -5,7 +5,7 @@ const char* const q120_kernel_name[N_KERNELS] = {"q120_vec_mat1col_product_baa",
 // not declared in any header of the library
 extern void q120_vec_mat1col_product_bbc_ref_old(q120_mat1col_product_bbc_precomp*, const uint64_t, q120b* const, const q120b* const, const q120c* const);
 extern void q120x2_vec_mat2cols_product_bbc_avx2_old(q120_mat1col_product_bbc_precomp*, const uint64_t, q120b* const, const q120b* const, const q120c* const);
-const char* const q120_fam_name[QF_N] = {"random", "noncanonical", "allmax", "alternate", "singlemax", "nearmultiple", "word32", "word32max", "mixedwidth", "high32", "lanesplit"};
+const char* const q120_fam_name[QF_N] = {"random", "noncanonical", "allmax", "alternate", "singlemax", "nearmultiple", "word32", "word32max", "mixedwidth", "high32", "pow2", "sparse", "lanesplit"};
 
 static uint64_t near_mult(rng_t* r, uint64_t q, unsigned maxbits) {
   // t*q*2^j - 1 below 2^maxbits
@@ -19,7 +19,37 @@ static uint64_t near_mult(rng_t* r, uint64_t q, unsigned maxbits) {
   return (uint64_t)(t * base - 1);
 }
 
+// QF_SPARSE: which elements stay non-zero (the others are cleared after a non-canonical fill). Mode: 0 only the last element,
+// 1 only one random element, 2 the first half zero, 3 every 1024-element block zero with probability 1/2 (block 0 always), 4 all zero
+static void sparse_mask(rng_t* r, uint64_t n, uint8_t* keep) {
+  const unsigned mode = (unsigned)(rng_u64(r) % 5);
+  const uint64_t pos = n ? rng_u64(r) % n : 0;
+  uint64_t blockbits = rng_u64(r) & ~1ull;
+  for (uint64_t i = 0; i < n; i++) {
+    switch (mode) {
+      case 0: keep[i] = i == n - 1; break;
+      case 1: keep[i] = i == pos; break;
+      case 2: keep[i] = i >= n / 2; break;
+      case 3: keep[i] = (uint8_t)((blockbits >> ((i >> 10) & 63)) & 1); break;
+      default: keep[i] = 0;
+    }
+  }
+}
 void q120_gen_a(rng_t* r, int fam, uint64_t n, uint64_t* x) {
+  if (fam == QF_SPARSE) {
+    uint8_t* keep = malloc(n + 1);
+    sparse_mask(r, n, keep);
+    q120_gen_a(r, QF_ALLMAX, n, x);
+    for (uint64_t i = 0; i < n; i++)
+      if (!keep[i]) x[4 * i] = x[4 * i + 1] = x[4 * i + 2] = x[4 * i + 3] = 0;
+    free(keep);
+    return;
+  }
+  if (fam == QF_POW2) {
+    const uint64_t v = 1ull << (rng_u64(r) % 32);
+    for (uint64_t i = 0; i < 4 * n; i++) x[i] = v;
+    return;
+  }
   if (fam == QF_WORD32 || fam == QF_MIXEDWIDTH || fam == QF_HIGH32 || fam == QF_LANESPLIT) fam = QF_NONCANON;  // a-layout words are 32-bit already
   if (fam == QF_WORD32MAX) fam = QF_ALLMAX;
   for (uint64_t i = 0; i < n; i++)
@@ -37,6 +67,20 @@ void q120_gen_a(rng_t* r, int fam, uint64_t n, uint64_t* x) {
     }
 }
 void q120_gen_b(rng_t* r, int fam, uint64_t n, uint64_t* x) {
+  if (fam == QF_SPARSE) {
+    uint8_t* keep = malloc(n + 1);
+    sparse_mask(r, n, keep);
+    q120_gen_b(r, (rng_u64(r) & 1) ? QF_ALLMAX : QF_NONCANON, n, x);
+    for (uint64_t i = 0; i < n; i++)
+      if (!keep[i]) x[4 * i] = x[4 * i + 1] = x[4 * i + 2] = x[4 * i + 3] = 0;
+    free(keep);
+    return;
+  }
+  if (fam == QF_POW2) {
+    const uint64_t v = 1ull << (rng_u64(r) % 64);
+    for (uint64_t i = 0; i < 4 * n; i++) x[i] = v;
+    return;
+  }
   const int narrow = (int)(rng_u64(r) & 3);  // QF_LANESPLIT: the lane that stays below 2^32 in every element
   for (uint64_t i = 0; i < n; i++)
     for (int k = 0; k < 4; k++) {
@@ -64,6 +108,27 @@ static uint32_t max_rep32(uint64_t v, uint64_t q) {
   return (uint32_t)(v + t * q);
 }
 void q120_gen_c(rng_t* r, int fam, uint64_t n, uint32_t* y) {
+  if (fam == QF_SPARSE) {
+    uint8_t* keep = malloc(n + 1);
+    sparse_mask(r, n, keep);
+    q120_gen_c(r, QF_NONCANON, n, y);
+    for (uint64_t i = 0; i < n; i++)
+      if (!keep[i]) memset(y + 8 * i, 0, 32);
+    free(keep);
+    return;
+  }
+  if (fam == QF_POW2) {
+    const unsigned e = (unsigned)(rng_u64(r) % 64);
+    for (uint64_t i = 0; i < n; i++)
+      for (int k = 0; k < 4; k++) {
+        const uint64_t q = Q120[k];
+        const uint64_t v = (uint64_t)(((u128)1 << e) % q);
+        // the value 2^e itself when it fits in a word, else its residue; second word: v * 2^32 mod q
+        y[8 * i + 2 * k] = e < 32 ? (uint32_t)(1u << e) : (uint32_t)v;
+        y[8 * i + 2 * k + 1] = (uint32_t)(((u128)v << 32) % q);
+      }
+    return;
+  }
   if (fam == QF_WORD32 || fam == QF_MIXEDWIDTH || fam == QF_HIGH32 || fam == QF_LANESPLIT) fam = QF_NONCANON;
   if (fam == QF_WORD32MAX) fam = QF_ALLMAX;
   for (uint64_t i = 0; i < n; i++)
